@@ -55,3 +55,7 @@ add("C04", "exploration", "model-based property-based testing: pools of genuine 
 add("C19", "exploration", "property-based testing of reply size/address against provenance-labelled inputs in generated server states",
     "Requests and responses of not-yet-connected clients are presented exactly, padded, truncated, corrupted, expired, from other addresses and repeatedly, plus random bytes, in server states empty / pending / full; every reply must go to the source address and be strictly shorter than the input, and inputs without a valid token or response must get none.",
     NETNOTE, "DESIGN.md 4/C19")
+
+add("C05", "exploration", "model-based property-based testing of handshake histories: every ClientConnected must be explained by the recorded history (provenance model of tokens, addresses, challenges)",
+    "Several identities, addresses and tokens (good / foreign key / foreign protocol / wrong host / short-lived), lossy honest handshakes, the clock stepped around every expiry second, stolen and corrupted requests, cross-echoed challenges (other id, same id with other user data, other server), replayed and mutated responses; the oracle rejects any reported connection the history does not explain.",
+    NETNOTE, "DESIGN.md 4/C05")
